@@ -2547,4 +2547,235 @@ Section Trace.
     - intros Hn. apply chain_cfg_doc; auto.
   Qed.
 
+  (* ================================================================ C08_old *)
+  Lemma owner_eqb_eq a b : owner_eqb a b = true -> a = b.
+  Proof.
+    destruct a, b; simpl; try discriminate; intros H.
+    - apply String.eqb_eq in H. congruence.
+    - apply Nat.eqb_eq in H. congruence.
+  Qed.
+
+  Lemma owner_eqb_refl a : owner_eqb a a = true.
+  Proof. destruct a; simpl; [apply String.eqb_refl|apply Nat.eqb_refl]. Qed.
+
+  Lemma old_lookup_set_same o (c : ctx) m : old_lookup o (old_set o c m) = Some c.
+  Proof.
+    induction m as [|[o1 c1] m IH]; simpl.
+    - rewrite owner_eqb_refl. reflexivity.
+    - destruct (owner_eqb o o1) eqn:E; simpl; [rewrite owner_eqb_refl; reflexivity|].
+      rewrite E. exact IH.
+  Qed.
+
+  Lemma old_lookup_set_other o' o (c : ctx) m :
+    owner_eqb o' o = false -> old_lookup o' (old_set o c m) = old_lookup o' m.
+  Proof.
+    intros Hne. induction m as [|[o1 c1] m IH]; simpl.
+    - rewrite Hne. reflexivity.
+    - destruct (owner_eqb o o1) eqn:E; simpl.
+      + rewrite Hne. apply owner_eqb_eq in E. subst o1. rewrite Hne. reflexivity.
+      + destruct (owner_eqb o' o1); auto.
+  Qed.
+
+  (* what __old__ is in a call: by construction of the call descriptor *)
+  Lemma C08_old_field i k o idx cd ev :
+    cl_old (mk_call i k o idx cd ev) =
+    match k with CInv | CPost => old_lookup o (i_old i) | _ => None end.
+  Proof. unfold Interp.mk_call. destruct k; reflexivity. Qed.
+
+  (* x is the evaluation of one condition of kind k of owner o made in interpreter state i
+     (so: on context i_ctx i, with __old__ read from i_old i) *)
+  Definition from_conds (i : istate ctx) (k : ckind) (o : owner) (ev : option event) (x : obs ctx) : Prop :=
+    exists idx cd, x = ObEval (mk_call i k o idx (Some cd) ev)
+                              (eval_code (mk_call i k o idx (Some cd) ev) (i_ctx i)).
+
+  Lemma eval_conds_obs k o ev cds : forall idx s s' r,
+    eval_conds k o idx cds ev s = (s', r) ->
+    exists new, m_tr s' = new ++ m_tr s /\ m_i s' = m_i s /\ Forall (from_conds (m_i s) k o ev) new.
+  Proof.
+    induction cds as [|cd cds IH]; intros idx s s' r H; simpl in H.
+    - inversion H; subst. exists []. auto.
+    - apply bind_inv in H. destruct H as [(s1 & b & H1 & H2)|(e & H1 & Hr)].
+      + apply eval_cond_inv in H1. cbv zeta in H1. destruct H1 as [Hs1 Hb].
+        assert (Hx : from_conds (m_i s) k o ev
+                       (ObEval (mk_call (m_i s) k o idx (Some cd) ev)
+                               (eval_code (mk_call (m_i s) k o idx (Some cd) ev) (i_ctx (m_i s)))))
+          by (exists idx, cd; reflexivity).
+        destruct b.
+        * apply IH in H2. destruct H2 as (new & Ht & Hi & Hf). subst s1. simpl in *.
+          exists (new ++ [ObEval (mk_call (m_i s) k o idx (Some cd) ev)
+                             (eval_code (mk_call (m_i s) k o idx (Some cd) ev) (i_ctx (m_i s)))]).
+          rewrite Ht, <- app_assoc. repeat split; auto. apply Forall_app. auto.
+        * inversion H2; subst. simpl.
+          exists [ObEval (mk_call (m_i s) k o idx (Some cd) ev)
+                         (eval_code (mk_call (m_i s) k o idx (Some cd) ev) (i_ctx (m_i s)))].
+          repeat split; auto.
+      + apply eval_cond_inv in H1. cbv zeta in H1. destruct H1 as [Hs1 Hb]. subst s'. simpl.
+        exists [ObEval (mk_call (m_i s) k o idx (Some cd) ev)
+                       (eval_code (mk_call (m_i s) k o idx (Some cd) ev) (i_ctx (m_i s)))].
+        repeat split; auto. constructor; auto. exists idx, cd; reflexivity.
+  Qed.
+
+  (* the __old__ store after contract k ...: only the CPre branch writes, exactly when there is an
+     invariant or a postcondition, and what it writes is the CURRENT context *)
+  Definition contract_old (k : ckind) (o : owner) (post inv : list code) (i : istate ctx)
+    : list (owner * ctx) :=
+    if i_ignore_contract i then i_old i else
+    match k with
+    | CPre => match inv, post with
+              | [], [] => i_old i
+              | _, _ => old_set o (i_ctx i) (i_old i)
+              end
+    | _ => i_old i
+    end.
+
+  Lemma contract_obs k o pre post inv ev s s' r :
+    contract k o pre post inv ev s = (s', r) ->
+    exists new,
+      m_tr s' = new ++ m_tr s /\ Forall (from_conds (m_i s') k o ev) new /\
+      i_ctx (m_i s') = i_ctx (m_i s) /\
+      i_old (m_i s') = contract_old k o post inv (m_i s).
+  Proof.
+    intros H. unfold Interp.contract, Interp.bind, Interp.get in H. unfold contract_old.
+    destruct (i_ignore_contract (m_i s)); [inversion H; subst; exists []; auto|].
+    destruct k; try (inversion H; subst; exists []; auto; fail).
+    - destruct inv as [|i0 inv]; [destruct post as [|p0 post]|];
+        cbv [Interp.modify Interp.ret] in H; apply eval_conds_obs in H;
+        destruct H as (new & Ht & Hi & Hf); exists new; rewrite Hi; simpl; auto.
+    - apply eval_conds_obs in H. destruct H as (new & Ht & Hi & Hf). exists new. rewrite Hi. auto.
+    - apply eval_conds_obs in H. destruct H as (new & Ht & Hi & Hf). exists new. rewrite Hi. auto.
+  Qed.
+
+  (* small Hoare logic on the new observations: all of them satisfy P, and on success R holds *)
+  Definition obsAt {A} (P : obs ctx -> Prop) (m : M A) (s : mstate) (R : A -> mstate -> Prop) : Prop :=
+    forall s' r, m s = (s', r) ->
+      exists new, m_tr s' = new ++ m_tr s /\ Forall P new /\ (forall a, r = inl a -> R a s').
+
+  Lemma obs_bind {A B} (P : obs ctx -> Prop) (m : M A) (f : A -> M B) s R1 R2 :
+    obsAt P m s R1 -> (forall a s1, R1 a s1 -> obsAt P (f a) s1 R2) -> obsAt P (bind m f) s R2.
+  Proof.
+    intros Hm Hf s' r H. apply bind_inv in H. destruct H as [(s1 & a & H1 & H2)|(e & H1 & Hr)].
+    - destruct (Hm _ _ H1) as (n1 & Ht1 & Hp1 & Hr1).
+      destruct (Hf a s1 (Hr1 a eq_refl) _ _ H2) as (n2 & Ht2 & Hp2 & Hr2).
+      exists (n2 ++ n1). rewrite Ht2, Ht1, app_assoc. repeat split; auto. apply Forall_app; auto.
+    - destruct (Hm _ _ H1) as (n1 & Ht1 & Hp1 & Hr1). exists n1. subst r.
+      repeat split; auto. intros a E; discriminate.
+  Qed.
+
+  Lemma obs_ret {A} (P : obs ctx -> Prop) (a : A) s (R : A -> mstate -> Prop) : R a s -> obsAt P (ret a) s R.
+  Proof. intros Hr s' r H. inversion H; subst. exists []. repeat split; auto. intros a0 E; inversion E; subst; auto. Qed.
+
+  Lemma obs_raise_meta (P : obs ctx -> Prop) m s (R : unit -> mstate -> Prop) :
+    P (ObMeta m) -> (forall s', m_i s' = m_i s -> R tt s') -> obsAt P (raise_meta m) s R.
+  Proof.
+    intros Hp Hr s' r H. assert (Hi := raise_meta_keeps _ _ _ _ H).
+    unfold Interp.raise_meta in H.
+    destruct (emit (i_time (m_i s)) m (m_x s)) as [x' [e|]]; inversion H; subst; simpl;
+      exists [ObMeta m]; repeat split; auto; intros a E; try discriminate.
+    destruct a. apply Hr. reflexivity.
+  Qed.
+
+  (* what one transition's conditions and action see *)
+  Definition sees_old (v : ctx) (x : obs ctx) : Prop :=
+    match x with
+    | ObEval c _ => cl_kind c = CInv \/ cl_kind c = CPost -> cl_old c = Some v
+    | ObExec c sent =>
+        (cl_code c = None /\ sent = Some []) \/
+        (cl_code c <> None /\ sent = option_map snd (exec_code c v))
+    | _ => True
+    end.
+
+  Lemma from_conds_sees i k o ev v x :
+    from_conds i k o ev x ->
+    (k = CInv \/ k = CPost -> old_lookup o (i_old i) = Some v) -> sees_old v x.
+  Proof.
+    intros (idx & cd & E) Hk. subst x. simpl. intros Hc.
+    unfold Interp.mk_call in *. simpl in *. destruct k; simpl; destruct Hc; try discriminate; auto.
+  Qed.
+
+  Lemma obs_contract v k o pre post inv ev s (R : unit -> mstate -> Prop) :
+    (k = CInv \/ k = CPost -> old_lookup o (contract_old k o post inv (m_i s)) = Some v) ->
+    (forall s', i_ctx (m_i s') = i_ctx (m_i s) ->
+                i_old (m_i s') = contract_old k o post inv (m_i s) -> R tt s') ->
+    obsAt (sees_old v) (contract k o pre post inv ev) s R.
+  Proof.
+    intros Hk Hr s' r H. apply contract_obs in H. destruct H as (new & Ht & Hf & Hc & Ho).
+    exists new. repeat split; auto.
+    - eapply Forall_impl; [|exact Hf]. intros x Hx. eapply from_conds_sees; eauto.
+      rewrite Ho. exact Hk.
+    - intros [] _. apply Hr; auto.
+  Qed.
+
+  Lemma obs_run_code k o cd ev s (R : list event -> mstate -> Prop) :
+    (forall s' a, i_old (m_i s') = i_old (m_i s) -> R a s') ->
+    obsAt (sees_old (i_ctx (m_i s))) (run_code k o cd ev) s R.
+  Proof.
+    intros Hr s' r H. apply run_code_inv in H. cbv zeta in H.
+    destruct cd as [cd|].
+    - destruct (exec_code (mk_call (m_i s) k o 0 (Some cd) ev) (i_ctx (m_i s))) as [[ctx' sent]|] eqn:E;
+        destruct H as [Hs Hres]; subst s' r; simpl.
+      + exists [ObExec (mk_call (m_i s) k o 0 (Some cd) ev) (Some sent)]. repeat split; auto.
+        * constructor; auto. simpl. right. rewrite E. split; [discriminate|reflexivity].
+        * intros a Ea. inversion Ea; subst. apply Hr. reflexivity.
+      + exists [ObExec (mk_call (m_i s) k o 0 (Some cd) ev) None]. repeat split; auto.
+        * constructor; auto. simpl. right. rewrite E. split; [discriminate|reflexivity].
+        * intros a Ea; discriminate.
+    - destruct H as [Hs Hres]; subst s' r; simpl.
+      exists [ObExec (mk_call (m_i s) k o 0 None ev) (Some [])]. repeat split; auto.
+      + constructor; auto. simpl. left. auto.
+      + intros a Ea. inversion Ea; subst. apply Hr. reflexivity.
+  Qed.
+
+  (* C08_old for a transition: with contracts on and at least one invariant or postcondition,
+     every invariant / postcondition evaluated while the transition is processed sees as __old__
+     the context v in which process_transition started; the preconditions do not change the
+     context, and the action (the only ObExec) was run on that same v. *)
+  Theorem C08_old_transition ev i t s s' r :
+    nth_error (c_transitions sc) i = Some t ->
+    ig s = false -> (t_inv t <> [] \/ t_post t <> []) ->
+    process_transition ev i s = (s', r) ->
+    exists new, m_tr s' = new ++ m_tr s /\ Forall (sees_old (i_ctx (m_i s))) new.
+  Proof.
+    intros Hn Hig Hne H. unfold Interp.process_transition in H. rewrite Hn in H.
+    set (v := i_ctx (m_i s)). set (o := OTrans i).
+    assert (Hstore : forall i0, i_ignore_contract i0 = false ->
+                       old_lookup o (contract_old CPre o (t_post t) (t_inv t) i0) = Some (i_ctx i0)).
+    { intros i0 E. unfold contract_old. rewrite E.
+      destruct (t_inv t) as [|x l]; [destruct (t_post t) as [|y l2]|];
+        try apply old_lookup_set_same. destruct Hne; congruence. }
+    assert (Hkeep : forall k i0, k <> CPre -> contract_old k o (t_post t) (t_inv t) i0 = i_old i0).
+    { intros k i0 Hk. unfold contract_old. destruct (i_ignore_contract i0); auto.
+      destruct k; auto; congruence. }
+    pose (R1 := fun (_ : unit) (s1 : mstate) =>
+                  i_ctx (m_i s1) = v /\ old_lookup o (i_old (m_i s1)) = Some v).
+    pose (R2 := fun (_ : unit) (s1 : mstate) => old_lookup o (i_old (m_i s1)) = Some v).
+    assert (Hall : obsAt (sees_old v) (process_transition ev i) s (fun _ _ => True)).
+    { unfold Interp.process_transition. rewrite Hn. unfold Interp.trans_contract. simpl fst. simpl snd.
+      apply obs_bind with (R1 := R1).
+      { apply obs_contract; [intros [E|E]; discriminate|].
+        intros s1 Hc Ho. split; auto. rewrite Ho. apply Hstore. exact Hig. }
+      intros u1 s1 [Hc1 Ho1].
+      apply obs_bind with (R1 := R1).
+      { apply obs_contract; [intros _; rewrite Hkeep by discriminate; auto|].
+        intros s2 Hc Ho. split; [congruence|]. rewrite Ho, Hkeep by discriminate. auto. }
+      intros u2 s2 [Hc2 Ho2].
+      apply obs_bind with (R1 := fun _ s3 => R2 tt s3).
+      { rewrite <- Hc2. apply obs_run_code. intros s3 a Ho. unfold R2. rewrite Ho. auto. }
+      intros sent s3 Ho3. unfold R2 in Ho3.
+      apply obs_bind with (R1 := R2).
+      { apply obs_contract; [intros _; rewrite Hkeep by discriminate; auto|].
+        intros s4 Hc Ho. unfold R2. rewrite Ho, Hkeep by discriminate. auto. }
+      intros u4 s4 Ho4. unfold R2 in Ho4.
+      apply obs_bind with (R1 := fun _ _ => True).
+      { apply obs_contract; [intros _; rewrite Hkeep by discriminate; auto|]. auto. }
+      intros u5 s5 _.
+      apply obs_bind with (R1 := fun _ _ => True).
+      { intros s6 r6 H6. inversion H6; subst. exists []. repeat split; auto. }
+      intros u6 s6 _.
+      apply obs_bind with (R1 := fun _ _ => True).
+      { apply obs_raise_meta; simpl; auto. }
+      intros u7 s7 _. apply obs_ret. auto. }
+    unfold Interp.process_transition in Hall. rewrite Hn in Hall.
+    destruct (Hall _ _ H) as (new & Ht & Hf & _). exists new. auto.
+  Qed.
+
 End Trace.
